@@ -97,7 +97,6 @@ inductive TOp
   | escrowIn (id : String) (k : PK) (n : Int)    -- swap begin: debit + record
   | escrowOut (id : String) (k : PK)             -- cancel / robot completion: record → balance or given
 
-def touch {α} [DecidableEq α] (l : List α) (k : α) : List α := if k ∈ l then l else k :: l
 abbrev touchId (ids : List String) (i : String) : List String := touch ids i
 
 def tstep (s : Tok) : TOp → Tok
